@@ -23,7 +23,7 @@ from __future__ import annotations
 
 import math
 from collections.abc import Callable, Iterator, Mapping, Sequence
-from functools import cached_property, reduce
+from functools import cached_property
 from typing import Any, cast, TYPE_CHECKING, TypeAlias
 
 import numpy as np
@@ -309,13 +309,15 @@ class CircuitOperation(ops.Operation):
         if len(self.qubits) > 1 or not protocols.has_unitary(self):
             return NotImplemented
 
-        unitaries = [protocols.unitary(op) for op in self.circuit.all_operations()]
-        dim = max((u.shape for u in unitaries), default=(1,))[0]
-        u = np.eye(dim, dtype=np.complex128)
-        u = reduce(lambda u1, u2: np.dot(u1, u2, out=u), reversed(unitaries), u)
+        # The mapped loop has the parameters bound and is already inverted for negative repetitions.
+        u = np.eye(self.qubits[0].dimension, dtype=np.complex128)
+        for op in self._mapped_any_loop.all_operations():
+            op_unitary = protocols.unitary(op)
+            # Zero-qubit operations (global phases) contribute a scalar.
+            u = op_unitary @ u if op.qubits else op_unitary[0, 0] * u
 
-        if self.repetitions != 1:
-            u = np.linalg.matrix_power(u, self.repetitions)
+        if abs(self.repetitions) != 1:
+            u = np.linalg.matrix_power(u, abs(self.repetitions))
         return u
 
     def _ensure_deterministic_loop_count(self):
